@@ -57,11 +57,18 @@ def make_wordlist(chk, rng, from_file=None, **kw):
         chk.hist['wordlist with permuted column order'] += 1
     if from_file and rng.random() < 0.3:
         path = os.path.join(from_file, 'wl%d.tsv' % rng.randrange(10 ** 9))
+        if rng.random() < 0.3:
+            # a file without an ID column: the reader numbers the rows 1, 2, ... in the order of the lines
+            d = dict([(0, d[0])] + [(n_ + 1, d[k]) for n_, k in enumerate(k for k in d if k != 0)])
+            with_id = False
+            chk.hist['wordlist file without an ID column'] += 1
+        else:
+            with_id = True
         with open(path, 'w', encoding='utf8') as f:
-            f.write('ID\t' + '\t'.join(h.upper() for h in d[0]) + '\n')
+            f.write(('ID\t' if with_id else '') + '\t'.join(h.upper() for h in d[0]) + '\n')
             for k in d:
                 if k != 0:
-                    f.write(str(k) + '\t' + '\t'.join(str(x) for x in d[k]) + '\n')
+                    f.write((str(k) + '\t' if with_id else '') + '\t'.join(str(x) for x in d[k]) + '\n')
         wl = Wordlist(path)
         os.remove(path)
         # columns without a type in the namespace come back as strings
